@@ -1017,7 +1017,16 @@ def get_input_string(
     return (
         safe(lambda: json.loads(inp))()
         .bind(safe(DerivationTree.from_parse_tree))
-        .bind(safe(lambda tree: eassert(tree, graph().tree_is_valid(tree))))
+        .bind(
+            safe(
+                lambda tree: eassert(
+                    tree,
+                    tree.value == "<start>"
+                    and not tree.is_open()
+                    and graph().tree_is_valid(tree),
+                )
+            )
+        )
         .lash(lambda _: safe(lambda: solver().parse(inp, skip_check=True))())
     )
 
